@@ -8,23 +8,32 @@ namespace RsslVerif.Lemmas.FixpointStmt
 open RsslVerif.Gen.RankTable RsslVerif.Gen.TypingTables
 open RsslVerif.Model.Conv RsslVerif.Model.Overload RsslVerif.Model.IrTyping RsslVerif.Model.Elab
 open RsslVerif.Model.Fixpoint RsslVerif.Lemmas.ElabConv RsslVerif.Lemmas.Elab RsslVerif.Lemmas.ElabExact
-open RsslVerif.Lemmas.ElabRelease RsslVerif.Lemmas.FixpointElab RsslVerif.Lemmas.FixpointArith
+open RsslVerif.Lemmas.ElabRelease RsslVerif.Lemmas.FixpointElab RsslVerif.Lemmas.FixpointArith RsslVerif.Lemmas.FixpointArithDim
 open RsslVerif.Lemmas.FixpointForms RsslVerif.Lemmas.FixpointCall RsslVerif.Lemmas.FixpointMain
 
 variable {Γ Γ' : Env}
 
 /-- the theorem for either build mode (`cfg(debug_assertions)` on or off, independently for the two generations) -/
 theorem reelab_any (hR : Renamed Γ Γ') (dbg dbg' : Bool) {s : SExpr} {i : IExpr} {τ : ETy} (hs : SrcOk s)
-    (h : elabE dbg Γ s = .ok (i, τ)) (hp : OutArgsPlain Γ i) {s' : SExpr} (hu : Unelab Γ' i s') :
+    (h : elabE dbg Γ s = .ok (i, τ)) {s' : SExpr} (hu : Unelab Γ' i s') :
     elabE dbg' Γ' s' = .ok (i, τ) := by
   have h0 : elabE false Γ s = .ok (i, τ) := by
     cases dbg
     · exact h
     · rw [← elab_debug_eq]; exact h
-  have := reelab_aux hR s i τ hs h0 hp s' hu
+  have := reelab_aux hR s i τ hs h0 s' hu
   cases dbg'
   · exact this
   · rw [elab_debug_eq]; exact this
+
+/-- since fix 3758fdd, in either build mode: no accepted expression passes a `Cast` for an `out` / `inout` parameter -/
+theorem outArgsPlain_any (dbg : Bool) {s : SExpr} {i : IExpr} {τ : ETy} (h : elabE dbg Γ s = .ok (i, τ)) :
+    OutArgsPlain Γ i := by
+  have h0 : elabE false Γ s = .ok (i, τ) := by
+    cases dbg
+    · exact h
+    · rw [← elab_debug_eq]; exact h
+  exact elab_outArgsPlain s i τ h0
 
 /-- `parse_expr` = `parse_expr_internal` (its unconditional type query never fires) -/
 theorem elabTop_eq (dbg : Bool) (Γ : Env) (e : SExpr) : elabTop dbg Γ e = elabE false Γ e := by
@@ -43,7 +52,7 @@ theorem elabTop_eq (dbg : Bool) (Γ : Env) (e : SExpr) : elabTop dbg Γ e = elab
 
 /-- **statements**: expression statements, `return` and initialised definitions are rebuilt identically -/
 theorem reelab_stmt (hR : Renamed Γ Γ') (dbg dbg' : Bool) {s : SStmt} {st : IStmt} (hs : SrcStmtOk s)
-    (h : elabStmt dbg Γ s = .ok st) (hp : OutArgsPlainStmt Γ st) {s' : SStmt} (hu : UnelabStmt Γ' st s') :
+    (h : elabStmt dbg Γ s = .ok st) {s' : SStmt} (hu : UnelabStmt Γ' st s') :
     elabStmt dbg' Γ' s' = .ok st := by
   cases s with
   | expr e =>
@@ -54,7 +63,7 @@ theorem reelab_stmt (hR : Renamed Γ Γ') (dbg dbg' : Bool) {s : SStmt} {st : IS
       simp at h; subst h
       cases hu with
       | expr hue =>
-        have := reelab_aux hR e e' τ hs he hp _ hue
+        have := reelab_aux hR e e' τ hs he _ hue
         simp [elabStmt, elabTop_eq, this]
   | ret eo =>
     cases eo with
@@ -82,9 +91,8 @@ theorem reelab_stmt (hR : Renamed Γ Γ') (dbg dbg' : Bool) {s : SStmt} {st : IS
             obtain ⟨c, hf, ha, _⟩ := convert_inv hc
             cases hu with
             | ret hue =>
-              have hp' : OutArgsPlain Γ e' := outPlain_of_applyConv ha hp
               obtain ⟨e0, τ0, hel, hb⟩ := reconv (elab_sound_any false e e' τ he)
-                (reelab_aux hR e e' τ hs he hp') hf ha (Or.inl rfl) _ hue
+                (reelab_aux hR e e' τ hs he) hf ha (Or.inl rfl) _ hue
               simp [elabStmt, elabTop_eq, hel, hR.ret, hrt, back_convert hf ha hb]
   | init t e =>
     simp only [elabStmt, elabTop_eq] at h
@@ -99,10 +107,53 @@ theorem reelab_stmt (hR : Renamed Γ Γ') (dbg dbg' : Bool) {s : SStmt} {st : IS
         obtain ⟨c, hf, ha, _⟩ := convert_inv hc
         cases hu with
         | init hue =>
-          have hp' : OutArgsPlain Γ e' := outPlain_of_applyConv ha hp
           obtain ⟨e0, τ0, hel, hb⟩ := reconv (elab_sound_any false e e' τ he)
-            (reelab_aux hR e e' τ hs he hp') hf ha (Or.inl rfl) _ hue
+            (reelab_aux hR e e' τ hs he) hf ha (Or.inl rfl) _ hue
           simp [elabStmt, elabTop_eq, hel, back_convert hf ha hb]
+
+/-- the same for statements: the conversion to the return / variable type is applied to the whole expression and adds
+    no call -/
+theorem outArgsPlainStmt_any (dbg : Bool) {s : SStmt} {st : IStmt} (h : elabStmt dbg Γ s = .ok st) :
+    OutArgsPlainStmt Γ st := by
+  cases s with
+  | expr e =>
+    simp only [elabStmt, elabTop_eq] at h
+    split at h
+    · simp at h
+    · rename_i e' τ he
+      simp at h; subst h
+      exact elab_outArgsPlain e e' τ he
+  | ret eo =>
+    cases eo with
+    | none =>
+      simp only [elabStmt] at h
+      split at h
+      · simp at h; subst h; trivial
+      · simp at h
+    | some e =>
+      simp only [elabStmt, elabTop_eq] at h
+      split at h
+      · simp at h
+      · rename_i e' τ he
+        split at h
+        · simp at h
+        · split at h
+          · simp at h
+          · simp at h
+          · rename_i e2 t2 hc
+            simp at h; subst h
+            exact convert_out hc (elab_outArgsPlain e e' τ he)
+  | init t e =>
+    simp only [elabStmt, elabTop_eq] at h
+    split at h
+    · simp at h
+    · rename_i e' τ he
+      split at h
+      · simp at h
+      · simp at h
+      · rename_i e2 t2 hc
+        simp at h; subst h
+        exact convert_out hc (elab_outArgsPlain e e' τ he)
 
 /-! ## the executable exporter shadow -/
 
